@@ -480,7 +480,7 @@ package gomavlib
 
 // ---------------------------------------------------------------- heartbeat / stream-request modules: when they run (C16)
 
-//@ func (*nodeHeartbeat).initialize$1 captures (h *nodeHeartbeat) returns (m)
+//@ func (*nodeHeartbeat).initialize$1 params () captures (h *nodeHeartbeat) returns (m)
 //@   requires h != nil && h.node != nil && h.node.Dialect != nil
 //@   requires forall j int :: 0 <= j && j < len(h.node.Dialect.Messages) ==> h.node.Dialect.Messages[j] != nil && !dynIs(h.node.Dialect.Messages[j], "*message.MessageRaw")
 //@   ensures  [none-found] m == nil ==> (forall j int :: 0 <= j && j < len(h.node.Dialect.Messages) ==> h.node.Dialect.Messages[j].GetID() != 0)
@@ -508,7 +508,7 @@ package gomavlib
 //@   canary   err == nil
 //@   modifies *h, ghost:log
 
-//@ func (*nodeStreamRequest).initialize$1 captures (sr *nodeStreamRequest) returns (m)
+//@ func (*nodeStreamRequest).initialize$1 params () captures (sr *nodeStreamRequest) returns (m)
 //@   requires sr != nil && sr.node != nil && sr.node.Dialect != nil
 //@   requires forall j int :: 0 <= j && j < len(sr.node.Dialect.Messages) ==> sr.node.Dialect.Messages[j] != nil && !dynIs(sr.node.Dialect.Messages[j], "*message.MessageRaw")
 //@   ensures  [none-found] m == nil ==> (forall j int :: 0 <= j && j < len(sr.node.Dialect.Messages) ==> sr.node.Dialect.Messages[j].GetID() != 0)
@@ -519,7 +519,7 @@ package gomavlib
 //@   loop 0 invariant -1 <= i && i < len(sr.node.Dialect.Messages)
 //@   loop 0 invariant forall j int :: 0 <= j && j <= i ==> sr.node.Dialect.Messages[j].GetID() != 0
 
-//@ func (*nodeStreamRequest).initialize$2 captures (sr *nodeStreamRequest) returns (m)
+//@ func (*nodeStreamRequest).initialize$2 params () captures (sr *nodeStreamRequest) returns (m)
 //@   requires sr != nil && sr.node != nil && sr.node.Dialect != nil
 //@   requires forall j int :: 0 <= j && j < len(sr.node.Dialect.Messages) ==> sr.node.Dialect.Messages[j] != nil && !dynIs(sr.node.Dialect.Messages[j], "*message.MessageRaw")
 //@   ensures  [none-found] m == nil ==> (forall j int :: 0 <= j && j < len(sr.node.Dialect.Messages) ==> sr.node.Dialect.Messages[j].GetID() != 66)
@@ -552,7 +552,7 @@ package gomavlib
 //@   modifies *sr, ghost:log
 
 // periodic cleanup of the rate-limit table (closure of run): only entries at least 30 s old are forgotten
-//@ func (*nodeStreamRequest).run$1 captures (sr *nodeStreamRequest, now time.Time)
+//@ func (*nodeStreamRequest).run$1 params () captures (sr *nodeStreamRequest, now time.Time)
 //@   requires sr != nil && sr.lastRequests != nil
 //@   ensures  [locked-around-the-sweep] logCallee(0, "sync.Mutex.Lock") && logCallee(logLen()-1, "sync.Mutex.Unlock")
 //@   modifies *sr.lastRequests, ghost:log
